@@ -40,6 +40,9 @@ func initMathStubs() {
 	}
 	round := func(mode string) StubFn {
 		return un(func(e *Exec, st *State, a *Term) *Term {
+			if e.fpUF {
+				return UF("f64_round_"+mode, RealSort, a)
+			}
 			if e.fpRelaxed {
 				return e.realRound(st, mode, a)
 			}
